@@ -83,6 +83,10 @@ pub fn run(tier: &str) -> Result<Report, String> {
         let keep: Vec<usize> = (0..b.cols.len()).step_by(2).collect();
         selected.push(Arc::new(b.restrict_colours(&keep)));
     }
+    // plus networks with multi-stability inside one colour (steady state next to a cyclic attractor)
+    for b in edge_nets(3)?.into_iter().filter(|b| ["mul3", "mul2"].contains(&b.name.as_str())) {
+        selected.push(b);
+    }
     for b in selected.iter() {
         sem::note_network(&mut rep, b);
         let fams = label_families(b, 4);
